@@ -283,9 +283,10 @@ pub fn mul_floats() -> Vec<f64> {
 }
 
 pub fn run(rep: &mut Report) {
-    let q = rep.quick();
+    let deep = !rep.quick();
+    let q = false;
     let fl = lattice::fl(!q);
-    let dl = lattice::dl(if q { 8 } else { 64 }, true);
+    let dl = lattice::dl(if deep { 256 } else { 64 }, true);
     rep.bound("FL_size", fl.len() as u64);
     rep.bound("DL_size", dl.len() as u64);
     rep.bound("ulp_tolerance", ULPS);
